@@ -5,6 +5,7 @@ CONSTANTS
   Offs = {0, 1}
   NSamples = {1, 4}
   Seeds = {0, 7}
+  BigN = {600001}
 INIT Init
 NEXT Next
 CHECK_DEADLOCK FALSE
